@@ -109,6 +109,8 @@ class BloomSubject(Subject):
         return self.obj
 
     def gen_op(self, rng):
+        if rng.chance(1, 12):
+            return {"op": "burst", "k": rng.below(self.cfg["universe"]), "cnt": rng.choice((20, 60, 300))}
         return {"op": "add", "k": rng.below(self.cfg["universe"])}
 
     def apply_op(self, st):
@@ -116,6 +118,13 @@ class BloomSubject(Subject):
             self.obj.add(seams.key_of(st["k"]))
             self.model[st["k"]] = 1
             self.total_adds += 1
+            return None
+        if st["op"] == "burst":  # many adds (same few keys) so that the stored count needs more than one byte
+            for i in range(st["cnt"]):
+                k = (st["k"] + i % 3) % self.cfg["universe"]
+                self.obj.add(seams.key_of(k))
+                self.model[k] = 1
+            self.total_adds += st["cnt"]
             return None
         if st["op"] == "clear":
             self.obj.clear()
@@ -383,7 +392,10 @@ class SketchSubject(Subject):
         if self.supports_remove() and present and rng.chance(1, 3) and not self.cfg.get("saturated"):
             k = rng.choice(present)
             return {"op": "remove", "k": k, "n": rng.between(1, min(self.model[k], 4))}
-        n = rng.weighted([(6, 1), (2, 2), (1, 7)])
+        if self.supports_remove() and self.cfg.get("negatives") and rng.chance(1, 6):
+            # over-removal: cells go negative (a reachable state; only used where no legitimacy is needed)
+            return {"op": "remove", "k": rng.below(u), "n": rng.weighted([(4, 1), (2, 9), (1, 2**31 + 5)]), "over": True}
+        n = rng.weighted([(6, 1), (2, 2), (1, 7), (1, 300)])
         if self.cfg.get("saturate") and rng.chance(1, 6):
             n = rng.choice((INT32_MAX - 1, INT32_MAX, 2**31, 2**33))
         return {"op": "add", "k": rng.below(u), "n": n}
@@ -404,6 +416,10 @@ class SketchSubject(Subject):
                 self.cfg["saturated"] = True
             return r
         if st["op"] == "remove":
+            if st.get("over") and self.cfg.get("negatives") and self.supports_remove():
+                self.cfg["saturated"] = True  # from here on the Counter model no longer bounds removals
+                self.total -= st["n"]
+                return self.obj.remove(key, st["n"])
             if self.model.get(st["k"], 0) < st["n"] or self.cfg.get("saturated") or not self.supports_remove():
                 return "skip"
             r = self.obj.remove(key, st["n"])
